@@ -21,7 +21,9 @@ CHECKS = {
                      "opcode/operand table for walking-one, all-distinct and complete per-field valuations, full products of small shapes and all headers; "
                      "the reference bytes are decoded by the real decoder; flavour objects constructed in every order must still "
                      "decode their own published bytes; an instruction whose operands are changed in place after a first encoding "
-                     "must encode its current operands. A consistent renumbering or field swap in encoder and "
+                     "must encode its current operands; every sequence of up to 3 (thorough 4) operations on one Subroutine object "
+                     "(encode, len, str, set app id, replace/edit the instruction list, instantiate) must leave an object whose bytes are "
+                     "the published layout of its current state. A consistent renumbering or field swap in encoder and "
                      "decoder, invisible to any round-trip test, is caught.",
                 note="the frozen table mc/wiretable.py is trusted as the published table (mov = 42 after the C01 repair)",
                 ref="3/C02"),
@@ -41,7 +43,9 @@ CHECKS = {
                      "thorough) against one application state on the real executor, hashing registers, arrays, shared memory and "
                      "allocation; every transition is compared with the independent reference VM (state, fault class, fault line, "
                      "state unchanged on fault, blocked waits). All programs up to 3 (thorough 4) instructions with every branch "
-                     "kind and every jump target are run under a step horizon and compared on the executed-pc trace and final state.",
+                     "kind and every jump target are run under a step horizon and compared on the executed-pc trace and final state. "
+                     "Four programs (moves/returns, arithmetic, array length/index/slice bounds, branches) are run for every ordered pair "
+                     "of the 64 registers, so every register of every bank is exercised in every operand role.",
                 note="reference semantics of appendix B; 'unspecified' cases (negative indices, undefined operands) excluded and counted; "
                      "quantum hooks and wait polling are harness overrides of no-op/abstract methods",
                 ref="3/C04"),
@@ -131,7 +135,8 @@ CHECKS = {
                      "registration made by the executor, equals an independently written argument-to-field map with documented defaults; "
                      "enum-typed fields are enum members and request_to_qlink_1_0 accepts K and M requests with matching fields. With "
                      "responses carrying all-distinct field values, every Qubit.entanglement_info field, the qubit-to-pair association, "
-                     "every EprKeepResult field and every EprMeasureResult field reads the same-named field of its own pair's response.",
+                     "every EprKeepResult field and every EprMeasureResult field reads the same-named field of its own pair's response. "
+                     "Every seventh request case is repeated with an EPRSocket object that served a connection of another network before.",
                 note="delivery schedule fixed to 'next pair when a wait blocks' (interleavings are C12); measurement_outcome compared only "
                      "where no Bell post-processing applies (C10); the R-to-qlink-1.0 conversion refusal is counted, not judged",
                 ref="3/C11"),
@@ -154,18 +159,18 @@ CHECKS = {
                 text="Explicit-state BFS over controller histories on the real QNodeController/Executor/SharedMemoryManager, driven through the "
                      "message-level lifecycle (init/stop/subroutine bytes) and the executor's response API: init, stop, qalloc, qfree, gate, "
                      "classical writes with app-tagged values, recv_epr (subroutine suspended in its wait), keep-response (handled or "
-                     "deferred) and retry, for up to 3 applications on 1-2 controllers with unit modules 1..4. After every transition: "
-                     "(app,virtual)->physical injective, used set == mapped set, every other application bit-identical (registers, arrays, "
+                     "deferred, or arriving before its recv_epr has run) and retry, for up to 3 applications on 1-2 controllers with unit modules 1..4. After every transition: "
+                     "(app,virtual)->physical injective, used set == mapped set, no queued response's physical qubit handed out, every other application bit-identical (registers, arrays, "
                      "shared memory via executor and manager, unit module), faulting subroutines equal to their fault-free prefix, stop "
-                     "leaves nothing keyed by the app and the id can be registered again clean. Quick: 6 configurations, ~1e5 transitions, "
-                     "one closed graph; thorough: 8 configurations, ~1.5e6 transitions, closed graphs for several size configurations "
+                     "leaves nothing keyed by the app and the id can be registered again clean. Quick: 7 configurations, ~1e5 transitions, "
+                     "one closed graph; thorough: 10 configurations, ~1.5e6 transitions, closed graphs for several size configurations "
                      "(any history length over those alphabets), the others depth-bounded.",
                 note="a small model predicts fault/suspend and enabling only; keep-response contract: lowest physical id neither marked used "
                      "nor carried by a queued response; ids of queued keep-responses are tolerated in the used set; closed graphs use events "
                      "that normalise their own scratch registers",
                 ref="3/C13"),
     "C14": dict(cat="model_checking", tech="explicit-state BFS over completed-SDK-operation histories on the builder's register economy until the state graph closes; nesting families executed on the real controller",
-                text="Breadth-first search over histories of 35 kinds of completed SDK operations plus flush (forced at the latest after 15 "
+                text="Breadth-first search over histories of 38 kinds of completed SDK operations (loops also with an explicit loop register, start and step) plus flush (forced at the latest after 15 "
                      "operations) on one connection, hashing the builder's register economy; every transition compiles and serialises "
                      "the real subroutine. Every completed operation must return the pool to the state it found (no active register, "
                      "no measurement register beyond live RegFutures, no open context), also after a probing flush that follows every "
@@ -188,7 +193,7 @@ CHECKS = {
                 ref="3/C15"),
     "C16": dict(cat="exploration", tech="bounded-exhaustive enumeration of out-of-range operands over three entry routes",
                 text="For every instruction class of every flavour, every operand field is given every value of a just-outside / "
-                     "far-outside list against two backgrounds, through direct construction, through the text assembler and "
+                     "far-outside list against two backgrounds, through direct construction (fresh objects, and objects that were encoded before and then changed in place), through the text assembler and "
                      "through SDK calls (rotation numerators/denominators, measurement basis rotations, array initial values, "
                      "literals, loop bounds, app id through constructor / setter / instantiate()); the oracle is 'encoding raises, or the bytes decode to exactly the requested program', "
                      "so a future widening of a field is not an alarm but a silent truncation is.",
@@ -198,7 +203,8 @@ CHECKS = {
                 text="Every instruction class of every flavour is printed with str() and parsed back with that flavour for every "
                      "value of every operand field against two backgrounds and all field pairs over reduced domains (negative "
                      "integers, array entries and slices with every register as index included); all sequences up to length 2 "
-                     "(thorough 3) over one representative per operand shape go text -> binary -> text -> parse and must be stable.",
+                     "(thorough 3) over one representative per operand shape go text -> binary -> text -> parse and must be stable; per class, "
+                     "print / change operands in place / print again and parse / change the result in place / parse again must reflect the current operands and the text.",
                 note="operands in range; 32-bit integers on the boundary lattice",
                 ref="3/C17"),
     "C18": dict(cat="model_checking", tech="stateless schedule exploration of the implementation: CHESS-style iterative context bounding on real threads (sys.settrace baton scheduler, scheduler-aware lock and sleep, fair scheduling for 3 threads, audited preemption-placement reduction)",
